@@ -87,6 +87,11 @@ class Session:
             except RecursionError:
                 res = PathResult("unsupported", path=I.path, interp=I, reason="recursion limit")
                 self.unsupported.append((label, "recursion limit"))
+            except Exception as e:  # noqa: BLE001  (an internal error of the engine on code it was not built for)
+                if os.environ.get("PYVC_DEBUG"):
+                    traceback.print_exc()
+                res = PathResult("unsupported", path=I.path, interp=I, reason=f"engine error {type(e).__name__}: {str(e)[:100]}")
+                self.unsupported.append((label, res.reason))
             # schedule alternatives discovered on this run
             d = I.path.decisions
             for i in range(len(prefix), len(d)):
@@ -95,6 +100,19 @@ class Session:
             if res is not None:
                 results.append(res)
         return results
+
+    def guarded(self, label, fn, *args):
+        """run the post-processing of one path; an exception there (a shape the contract was not written
+        for, a recursion blow-up) puts the function out of reach instead of crashing the checker"""
+        n0 = len(self.obligations)
+        try:
+            return fn(*args)
+        except (Unsupported, RecursionError, KeyError, AttributeError, TypeError, IndexError, z3.Z3Exception, Exception) as e:  # noqa: BLE001
+            if os.environ.get("PYVC_DEBUG"):
+                traceback.print_exc()
+            del self.obligations[n0:]
+            self.unsupported.append((label, f"contract post-processing: {type(e).__name__}: {str(e)[:120]}"))
+            return None
 
     # ------------------------------------------------------------------ obligations
     def add(self, ob: Obligation):
